@@ -89,18 +89,19 @@ def case(fam, geometry, rep):
             rb0 = built[(True, False)]
             MB.check_boundary_region(run, rb0.copy(), mesh, label=fam + "[copy]")
             run.units[fam + ":copy"] += 1
+            size = float(np.ptp(mesh.points, axis=0).max())  # translations in units of the body (a far-away body only costs digits)
             m_upd = mesh.copy()
             rbu = R(m_upd)
             A_, t_ = gen.random_affine(rng, dim)
-            rbu.mesh.update(points=rbu.mesh.points @ A_.T + unit * t_, callback=rbu.reload)
-            MB.check_boundary_region(run, rbu, mesh.copy(points=mesh.points @ A_.T + unit * t_), label=fam + "[reload]")
+            rbu.mesh.update(points=rbu.mesh.points @ A_.T + size * t_, callback=rbu.reload)
+            MB.check_boundary_region(run, rbu, mesh.copy(points=mesh.points @ A_.T + size * t_), label=fam + "[reload]")
             run.units[fam + ":reload"] += 1
             # the documented refresh after moving the body: the *user's* mesh is updated and hands itself to the region's reload
             m_usr = mesh.copy()
             rbv = R(m_usr, only_surface=bool(rep % 2 == 0))
             A2, t2 = gen.random_affine(rng, dim)
-            m_usr.update(points=m_usr.points @ A2.T + unit * t2, callback=rbv.reload)
-            MB.check_boundary_region(run, rbv, mesh.copy(points=mesh.points @ A2.T + unit * t2), label=fam + "[reload by the body's mesh]")
+            m_usr.update(points=m_usr.points @ A2.T + size * t2, callback=rbv.reload)
+            MB.check_boundary_region(run, rbv, mesh.copy(points=mesh.points @ A2.T + size * t2), label=fam + "[reload by the body's mesh]")
             run.units[fam + ":reload-by-body-mesh"] += 1
             # the geometric gradient of the boundary cells stays the derivative of the position (dXdr drdX = 1)
             one = np.einsum("IKqc,KJqc->IJqc", rb0.dXdr, rb0.drdX)
